@@ -75,6 +75,8 @@ def detect(sdir, props):
         print("patch does not apply:", out)
         return 2
     results = {}
+    # evidence written while the change is applied describes the patched tree: keep the unchanged tree's records
+    saved = {p: open(f"/verif/evidence/{p}.json").read() for p in props if os.path.exists(f"/verif/evidence/{p}.json")}
     try:
         for p in props:
             t0 = time.time()
@@ -92,6 +94,9 @@ def detect(sdir, props):
             print(p, results[p])
     finally:
         sh("git checkout -- .", cwd="/repo")
+        for p, txt in saved.items():
+            open(f"/verif/evidence/{p}.json", "w").write(txt)
+        sh("python3 tools/translate.py >/dev/null", cwd="/verif")
     mp = os.path.join(sdir, "meta.json")
     meta = json.load(open(mp)) if os.path.exists(mp) else {}
     meta["detected_by"] = {p: r for p, r in results.items() if r["exit"] != 0}
